@@ -14,6 +14,8 @@ pub struct PanicRec {
 
 static PANICS: Mutex<Vec<PanicRec>> = Mutex::new(Vec::new());
 
+pub const SCRIPTED_DEVICE_PANIC: &str = "scripted device failure (harness)";
+
 pub fn install_panic_monitor() {
     panic::set_hook(Box::new(|info| {
         let location = info.location().map(|l| format!("{}:{}", l.file(), l.line())).unwrap_or_default();
@@ -24,6 +26,9 @@ pub fn install_panic_monitor() {
         } else {
             "?".to_string()
         };
+        if msg == SCRIPTED_DEVICE_PANIC {
+            return; // a device failure the harness injects on purpose
+        }
         let thread = std::thread::current().name().unwrap_or("?").to_string();
         PANICS.lock().unwrap_or_else(|e| e.into_inner()).push(PanicRec { location, msg, thread });
     }));
